@@ -530,9 +530,16 @@ def corpus_cases():
 
 
 def run_text_stage(run, n=None):
-    """the harness must be built (harness_build()). Returns the counts (also stored in run.notes["text_pricedb"])."""
+    """the harness must be built (harness_build()). Returns the counts (also stored in run.notes["text_pricedb"]).
+    Called from another check (C07) it first makes sure that the theorems of coq/props/T03.v still build."""
     if n is None:
         n = 300 if run.tier == "quick" else 5000
+    if run.prop != "T03":
+        ok_t, log_t = coq_make(["props/T03.vo"])
+        if not ok_t:
+            run.violation("proof obligation does not check: props/T03.v (price-file text model) failed to build",
+                          {"theorem_file": "coq/props/T03.v", "log": log_t[-2000:]}, found_input=False)
+            return {"compared": 0, "distinct_data_bases": 0, "proofs_failed": True}
     r = run.rng
     cases = corpus_cases()
     for i in range(n):
